@@ -71,7 +71,7 @@ def gen_node(ch, nm, depth, max_depth, fan, rich, parent_has_rest=False):
         short = nm.short(ch)
         node["opts"].append(dict(long="%so%d" % (name, i), short=short, mode=mode, desc=dsc(), default=default,
                                  prefer=ch.choice(["auto", "long", "short"]) if short else "auto"))
-    if node["subs"] and ch.flip(0.35):
+    if node["subs"] and not rich and ch.flip(0.35):
         # an option spelled like one of the command's own sub-commands (different namespaces: valid)
         sub = ch.choice(node["subs"])
         node["opts"].append(dict(long=ch.choice([sub["name"]] + sub["aliases"]), short=None, mode="flag", desc="like a sub-command", default=None,
